@@ -490,7 +490,10 @@ class Interp:
             except OSError:
                 known = set(self.prog.classes)
             self.__dict__["_known_classes"] = known
-        return ty[1] in self.prog.classes and ty[1] not in known
+        if ty[1] not in self.prog.classes or ty[1] in known:
+            return False
+        ci = self.prog.classes[ty[1]]
+        return any(ast.unparse(d).split("(")[0].split(".")[-1] == "dataclass" for d in ci.node.decorator_list) or any(ast.unparse(b).split(".")[-1] == "NamedTuple" for b in ci.node.bases)
 
     def _assign_target(self, env: dict, tgt: ast.expr, val: Any, cfg: CFG) -> None:
         if isinstance(tgt, (ast.Tuple, ast.List)):
